@@ -13,10 +13,10 @@ use vstd::prelude::*;
 verus! {
 //@ include: prelude.rs
 
-pub const IS_STMT: u8 = 2;
-pub const PROLOG_END: u8 = 4;
-pub const EPILOG_BEGIN: u8 = 8;
-pub const END_SEQUENCE: u8 = 16;
+//@ const: src/debugger/debugee/dwarf/unit/mod.rs :: IS_STMT
+//@ const: src/debugger/debugee/dwarf/unit/mod.rs :: PROLOG_END
+//@ const: src/debugger/debugee/dwarf/unit/mod.rs :: EPILOG_BEGIN
+//@ const: src/debugger/debugee/dwarf/unit/mod.rs :: END_SEQUENCE
 
 #[derive(Clone, Copy)]
 pub struct GlobalAddress(pub usize);
@@ -90,18 +90,22 @@ pub fn outline_u64_from_ga(a: GlobalAddress) -> (r: u64)
 impl LineRow {
 //@ extract: impl LineRow / fn is_stmt
 //@   ret: r
+//@   proof before `self.flags & IS_STMT`: assert(IS_STMT == 2) by (compute);
 //@   ensures E_is_stmt: r == (self.flags & 2 == 2)
 //@ end
 //@ extract: impl LineRow / fn prolog_end
 //@   ret: r
+//@   proof before `self.flags & PROLOG_END`: assert(PROLOG_END == 4) by (compute);
 //@   ensures E_prolog_end: r == (self.flags & 4 == 4)
 //@ end
 //@ extract: impl LineRow / fn epilog_begin
 //@   ret: r
+//@   proof before `self.flags & EPILOG_BEGIN`: assert(EPILOG_BEGIN == 8) by (compute);
 //@   ensures E_epilog_begin: r == (self.flags & 8 == 8)
 //@ end
 //@ extract: impl LineRow / fn end_sequence
 //@   ret: r
+//@   proof before `self.flags & END_SEQUENCE`: assert(END_SEQUENCE == 16) by (compute);
 //@   ensures E_end_sequence: r == (self.flags & 16 == 16)
 //@ end
 }
